@@ -464,6 +464,60 @@ func runSM(dir string, seed uint64, n int) {
 		r.newSM(max)
 		pid := 100
 		steps := 6 + rg.Intn(30)
+		if rg.Chance(0.3) {
+			// life-cycle scenario: a table fills, plays some hands, newcomers arrive (some on seats the button
+			// has not passed, some only joined), then the players who were playing leave or sit out — all of them,
+			// or all but one — and the table moves on with whoever is left
+			o.Count("sm.scenarios")
+			k := 2 + rg.Intn(max-1)
+			for j := 0; j < k && !r.dead; j++ {
+				pid++
+				st := itoa(int64(rg.Intn(max)))
+				r.exec([]string{"join", st, itoa(int64(pid)), "-"})
+				r.exec([]string{"seat", st})
+			}
+			for j := 1 + rg.Intn(3); j > 0 && !r.dead; j-- {
+				r.exec([]string{"next"})
+			}
+			playing := []int{}
+			for i, sn := range r.m.GetSeats() {
+				if sn.Player != nil && sn.IsActive && !sn.IsReserved {
+					playing = append(playing, i)
+				}
+			}
+			for j := rg.Intn(4); j > 0 && !r.dead; j-- {
+				pid++
+				st := itoa(int64(rg.Intn(max)))
+				if rg.Chance(0.3) {
+					st = "-1"
+				}
+				r.exec([]string{"join", st, itoa(int64(pid)), "-"})
+				if rg.Chance(0.75) && st != "-1" {
+					r.exec([]string{"seat", st})
+				}
+				if rg.Chance(0.2) {
+					r.exec([]string{"next"})
+				}
+			}
+			keep := -1
+			if len(playing) > 0 && rg.Chance(0.5) {
+				keep = playing[rg.Intn(len(playing))]
+			}
+			for _, i := range playing {
+				if i == keep || r.dead {
+					continue
+				}
+				if rg.Chance(0.25) {
+					r.exec([]string{"reserve", itoa(int64(i))}) // sits out
+				} else {
+					r.exec([]string{"leave", itoa(int64(i))})
+				}
+			}
+			for j := 1 + rg.Intn(3); j > 0 && !r.dead; j-- {
+				r.exec([]string{"next"})
+			}
+			steps = rg.Intn(10)
+		}
 		for s := 0; s < steps && !r.dead; s++ {
 			op := genSMOp(rg, max, &pid)
 			r.exec(op)
